@@ -14,6 +14,9 @@ import (
 )
 
 func parseFloatLine(components []string) (f float64, err error) {
+	if len(components) < 2 {
+		return 0, fmt.Errorf("%s statement without a value", components[0])
+	}
 	if f, err = strconv.ParseFloat(strings.TrimSpace(components[1]), 32); err != nil {
 		return 0, fmt.Errorf("unable to parse component[0] %q: %w", components[0], err)
 	}
@@ -35,6 +38,13 @@ func colorChannel(f float64) uint8 {
 }
 
 func parseColorLine(components []string) (color.Color, error) {
+	// "Kd r g b", or "Kd r" which stands for g = b = r
+	if len(components) == 2 {
+		components = []string{components[0], components[1], components[1], components[1]}
+	}
+	if len(components) < 4 {
+		return nil, fmt.Errorf("%s statement needs one or three values, got %d", components[0], len(components)-1)
+	}
 	r, err := strconv.ParseFloat(strings.TrimSpace(components[1]), 32)
 	g, err := strconv.ParseFloat(strings.TrimSpace(components[2]), 32)
 	b, err := strconv.ParseFloat(strings.TrimSpace(components[3]), 32)
